@@ -89,6 +89,8 @@ fn sample_mult(lambda: f64) -> f64 {
     let mut count = 0.;
     let mut product: f64 = alea::f64();
     while product > limit {
+        #[cfg(feature = "verif-hooks")]
+        crate::verif_hooks::tick(crate::verif_hooks::Site::PoissonMult);
         count += 1.;
         product *= alea::f64();
     }
@@ -105,16 +107,22 @@ fn sample_ptrs(lam: f64) -> f64 {
     let vr = 0.9277 - 3.6224 / (b - 2.);
 
     loop {
+        #[cfg(feature = "verif-hooks")]
+        crate::verif_hooks::tick(crate::verif_hooks::Site::PoissonPtrs);
         let U = alea::f64() - 0.5;
         let V = alea::f64();
         let us = 0.5 - U.abs();
         let k = f64::floor((2. * a / us + b) * U + lam + 0.43);
         if (us >= 0.07) && (V <= vr) {
+            #[cfg(feature = "verif-hooks")]
+            crate::verif_hooks::tick(crate::verif_hooks::Site::PoissonPtrsFast);
             return k;
         }
         if (k < 0.) || (us < 0.013) && (V > us) {
             continue;
         }
+        #[cfg(feature = "verif-hooks")]
+        crate::verif_hooks::tick(crate::verif_hooks::Site::PoissonPtrsSlow);
         if (V.ln() + invalpha.ln() - (a / (us * us) + b).ln())
             <= (-lam + k * loglam - gamma(k + 1.).ln())
         {
